@@ -247,6 +247,32 @@ def run(chk):
   chk.ob('C17-R3', bool(st), None, 'the main query is recorded as table_to_export_map[name]',
          'the executor has no statement for the requested predicate', fi=f.fi)
 
+  chk.rule('C17-R4', 'a grounded predicate is never inlined into its reader: '
+           'OkInjection is false whenever Ground(p) is present and every '
+           'InjectStructure is control dependent on OkInjection for the '
+           'predicate being injected', min_instances=2)
+  from rules.c18 import Abs, outcomes
+  from sa.absint import Const as _C
+  fi2, outs = outcomes(repo, K.OKINJ, {'universe.Annotations.Ground': Abs('ground-present', True, False)})
+  bad = [o for o in outs if o.kind in ('return', 'fall') and
+         not (isinstance(o.value, _C) and not o.value.v)]
+  chk.ob('C17-R4', bool(outs) and not bad, None, 'OkInjection is false when @Ground(p) is present',
+         'a grounded predicate can be judged injectible: it is inlined and its '
+         'table is never written', fi=fi2)
+  v2, sites = K.injection_sites(chk)
+  for n, c in sites:
+    oks = [e for e, val in v2.guards(n) if val and isinstance(e, ast.Call) and
+           K.OKINJ in repo.resolve(v2.fi, e)]
+    gpr = {dotted(x.args[0]) for m2, x in v2.all_calls()
+           if call_tail(x) == 'GetPredicateRules' and x.args}
+    asked = {dotted(e.args[0]) for e in oks if e.args}
+    chk.ob('C17-R4', bool(oks) and asked <= gpr, None,
+           'every injection asks OkInjection about the predicate it injects, at the time it injects it',
+           'InjectStructure is reached without a positive OkInjection(<predicate>) '
+           'test on the path (hoisted / cached decision?): predicates that appear '
+           'in later rounds of the injection loop are not checked against @Ground',
+           fi=v2.fi, node=c)
+
 
 def _balanced(flat):
   return 'EXISTS ;' not in flat and 'TABLE AS' not in flat and 'EXISTS <CASCADE?>;' not in flat
